@@ -22,6 +22,34 @@ using bspline::exceptions::ErrorCode;
 using bspline::support::Grid;
 using bspline::support::Support;
 
+// ---------------------------------------------------------------- failpoint
+// Countdown allocation failure: while armed, the k-th call of operator new
+// throws std::bad_alloc. Used to observe what a call leaves behind when it
+// fails in the middle (built-in scalar types only; not under ASan, whose own
+// operator new must stay in place).
+#if !defined(VF_HAVE_ASAN) && !defined(VT_Q) && !defined(_GLIBCXX_DEBUG)
+#define VF_FAILPOINTS 1
+namespace fp {
+long countdown = 0;
+bool armed = false;
+long seen = 0;
+}  // namespace fp
+void *operator new(std::size_t n) {
+  if (fp::armed) {
+    fp::seen++;
+    if (--fp::countdown == 0) {
+      fp::armed = false;
+      throw std::bad_alloc();
+    }
+  }
+  void *p = std::malloc(n ? n : 1);
+  if (!p) throw std::bad_alloc();
+  return p;
+}
+void operator delete(void *p) noexcept { std::free(p); }
+void operator delete(void *p, std::size_t) noexcept { std::free(p); }
+#endif
+
 namespace {
 
 // a refusal by the library's exception and a foreign exception type are both
@@ -63,6 +91,7 @@ struct Machine {
   bool dyadic;
   const char *curStep = "";
   bool failing = false;  // the current step is a call that must be refused
+  bool faulting = false;  // the current step had an allocation failure injected
 
   Machine(Ctx &ctx) : c(ctx), g(ctx.rng()), dyadic(!ST<T>::exact) {}
 
@@ -174,6 +203,7 @@ struct Machine {
     writeSet.clear();
     snapAll(before);
     failing = false;
+    faulting = false;
   }
   void mark() {
     stepNo++;
@@ -191,9 +221,11 @@ struct Machine {
         if (w.first == o && w.second == i) inWS = true;
       if (inWS) continue;
       if (!(before[idx] == after[idx])) {
-        viol("C14", std::string("bystander-changed/") + curStep,
+        viol("C14", std::string(faulting ? "target-changed-by-failed-call/"
+                                         : "bystander-changed/") + curStep,
              "object slot" + std::to_string(o) + "." + std::to_string(i) +
-                 " changed although the step does not write it");
+                 (faulting ? " changed although the call threw std::bad_alloc"
+                           : " changed although the step does not write it"));
         if (failing)
           viol("C08", std::string("argument-changed-by-refused-call/") + curStep,
                "object slot" + std::to_string(o) + "." + std::to_string(i) +
@@ -1044,6 +1076,82 @@ struct Machine {
     endStep();
   }
 
+#ifdef VF_FAILPOINTS
+  // allocation failure injected at every allocation of an assignment or
+  // in-place operation in turn: afterwards the target is unchanged (C14) and
+  // every object valid (C10)
+  template <size_t oa, size_t ob>
+  void stepAllocFault() {
+    static const char *names[] = {"alloc-fault-copy-assign", "alloc-fault-add-assign",
+                                  "alloc-fault-sub-assign", "alloc-fault-cross-assign",
+                                  "alloc-fault-move-assign-temporary"};
+    const int kind = (int)g.below(5);
+    const size_t ia = g.below(NSLOT), ib = g.below(NSLOT);
+    if (oa == ob && ia == ib) return;
+    beginStep(names[kind]);
+    // source and target with fresh, different windows (so that the target's
+    // storage cannot simply be reused)
+    fresh<oa>(ia, genWin(g, n()), g.chance(1, 3));
+    fresh<ob>(ib, genWin(g, n()), g.chance(1, 3));
+    wrote(oa, ia);
+    wrote(ob, ib);
+    endStep();
+    note(std::string(names[kind]) + "(" + std::to_string(oa) + "." +
+         std::to_string(ia) + "<-" + std::to_string(ob) + "." + std::to_string(ib) + ")");
+    Spline<T, oa> &t = *slot<oa>(ia).s;
+    const Spline<T, ob> &src = *slot<ob>(ib).s;
+    for (long k = 1; k <= 24; k++) {
+      beginStep(names[kind]);  // snapshot; empty write set
+      if (k == 1) mark();
+      faulting = true;
+      bool threw = false, applicable = true;
+      fp::countdown = k;
+      fp::seen = 0;
+      fp::armed = true;
+      try {
+        switch (kind) {
+          case 0:
+            if constexpr (oa == ob) t = src; else applicable = false;
+            break;
+          case 1:
+            if constexpr (ob <= oa) t += src; else applicable = false;
+            break;
+          case 2:
+            if constexpr (ob <= oa) t -= src; else applicable = false;
+            break;
+          case 3:
+            if constexpr (ob < oa) t = src; else applicable = false;
+            break;
+          default:
+            if constexpr (oa == ob) t = src * mk<T>(R(2)); else applicable = false;
+        }
+      } catch (const std::bad_alloc &) {
+        threw = true;
+      } catch (const std::exception &e) {
+        fp::armed = false;
+        viol("C10", std::string("foreign-exception/") + names[kind], e.what());
+      }
+      fp::armed = false;
+      if (!applicable) {
+        endStep();
+        return;
+      }
+      if (threw) {
+        c.count("alloc-fault:injected");
+        c.count(std::string("alloc-fault:") + names[kind]);
+        endStep();  // target not in the write set: must be bit-identical, valid
+      } else {
+        // the call completed: it is an ordinary assignment now
+        wrote(oa, ia);
+        slot<oa>(ia).shadow = denote(t);
+        endStep();
+        c.count("alloc-fault:completed");
+        return;
+      }
+    }
+  }
+#endif
+
   // linearCombination over copies of slots of one order
   template <size_t o>
   void stepLinComb() {
@@ -1366,6 +1474,10 @@ struct Machine {
           dispatchOrder<MAXO>(ob, [&](auto OB) { stepForms<A, OB.value>(); });
         } else if (roll < 93) {
           dispatchOrder<MAXO>(ob, [&](auto OB) { stepMigrate<A, OB.value>(); });
+#ifdef VF_FAILPOINTS
+        } else if (roll < 95) {
+          dispatchOrder<MAXO>(ob, [&](auto OB) { stepAllocFault<A, OB.value>(); });
+#endif
         } else {
           dispatchOrder<MAXO>(ob, [&](auto OB) {
             stepFailing<A, OB.value>((int)g.below(12));
